@@ -26,6 +26,11 @@ def _univ(workdir, names):
     return _UA, _UB
 
 
+def _dstr(descr):
+    """the specific (1-minimal) input, as in C01's keys"""
+    return "; ".join("%s.%s %s %s" % tuple(d) for d in descr)
+
+
 def _one(arg):
     workdir, names, e2fsck, env, stream, cid = arg
     ua, ub = _univ(workdir, names)
@@ -137,9 +142,7 @@ def main(tier, seed, replay=None, scale=1.0):
                     continue
                 if r.get("rc") == 0:
                     fams = ",".join(sorted(set(k.split(":")[0] for k in py)))
-                    key = "C02a e2fsck-fn-accepts [%s] %s" % (r["cls"], fams)
-                    if "F5:group-desc-csum" in py:
-                        key = "C02a e2fsck-fn-accepts F5:group-desc-csum" 
+                    key = "C02a e2fsck-fn-accepts %s: %s -> %s" % (r["image"], _dstr(r["descr"]), fams)
                     rep.violation(key, "e2fsck -fn exits 0 on %s cid %d %s but the independent checker "
                                   "finds: %s" % (r["image"], r["cid"], r["descr"], r["pydet"]),
                                   replay={"stream": "a", "cid": r["cid"], "image": r["image"],
@@ -155,7 +158,7 @@ def main(tier, seed, replay=None, scale=1.0):
                 rep.count("b_clean_after_repair")
                 if py:
                     fams = ",".join(sorted(set(k.split(":")[0] for k in py)))
-                    key = "C02b post-repair-accepted [%s] %s" % (r["cls"], fams)
+                    key = "C02b post-repair-accepted %s: %s -> %s" % (r["image"], _dstr(r["descr"]), fams)
                     rep.violation(key, "after e2fsck -fy (exit %s) e2fsck -fn exits 0 on %s cid %d %s but "
                                   "the independent checker finds: %s" %
                                   (r["rc1"], r["image"], r["cid"], r["descr"], r["pydet"]),
